@@ -195,6 +195,9 @@ def loop_exhausted(ip, st, which=None):
     n = 0
     for (path, head, src, dst) in st.loop_exits:
         fn = ip.crate.fn(path)
+        if fn is None and path.startswith('#iter_next<'):
+            from . import lower
+            fn = lower.model_fn(ip.crate, path)      # the search loop of a filtering adaptor ran out of elements
         if fn is None:
             return False
         chain, callees, sw = fn.loop_test(head)
